@@ -308,3 +308,45 @@ def check_getters(ctx, spec, sname, rule='L3'):
             ctx.inst(rule, g, bool(oks) and all(oks), 'getter returns %s; must be the stored field .%s (spec field %s.%s)'
                      % (' | '.join(descr), '.'.join(want), struct, node[1]), gb.span, key='%s|%s' % (g, rule))
     return n
+
+
+# constants that may legitimately appear in a repeat count (besides 0 and 1), with the reason
+LOOP_CONSTS = {
+    'asefile::palette::parse_old_chunk_04': ({256}, 'a packet count byte of 0 means 256 entries'),
+    'asefile::palette::parse_old_chunk_11': ({256}, 'a packet count byte of 0 means 256 entries'),
+}
+LOOP_CALLS_OK = ('asefile::reader::AseReader::', 'std::ops::RangeInclusive::new', 'std::ops::Range', 'std::iter::IntoIterator::into_iter')
+
+
+def loop_counts_exact(ctx, spec, rule='L1', only=None, floor=10):
+    """every repeat count of a decoder is the file field(s) themselves: not clamped (min/max/clamp/saturating..), not scaled,
+    no foreign constant - a clamped count decodes a *prefix* of the entries and silently drops the rest"""
+    import schedule
+    from q import walk, show
+    fx = ctx.fx
+    S = schedule.get(fx)
+    n = 0
+    for fn in sorted(spec['decoders']):
+        b = fx.body(fn)
+        if b is None or (only is not None and fn not in only):
+            continue
+        seen = set()
+        try:
+            paths = S.paths(b)
+        except RuntimeError:
+            continue          # reported by check_layout
+        for path in paths:
+            for it in path:
+                if it[0] != 'D' or it[1] != 'loop' or it[2] in seen:
+                    continue
+                seen.add(it[2])
+                n += 1
+                calls = sorted({x[1] for x in walk(it[2]) if isinstance(x, tuple) and x[0] == 'call' and not x[1].startswith(LOOP_CALLS_OK)})
+                allowed = LOOP_CONSTS.get(fn, (set(), ''))[0] | {0, 1}
+                consts = sorted(set(schedule.consts_in(it[2])) - allowed)
+                ok = not calls and not consts
+                ctx.inst(rule, fn.split('asefile::')[-1] + '#count', ok, 'repeat count %s: %s' % (show(it[2])[:120], 'the declared field(s), unclamped' if ok else
+                         'passes through %s / constants %s - entries beyond the altered count would be dropped or invented' % (
+                             [c.split('::')[-1] for c in calls], consts)), None,
+                         key='%s|%s|count|%d' % (fn, rule, len(seen)))
+    ctx.floor('repeat counts examined', n, floor)
